@@ -13,11 +13,13 @@ package main
 // computed beyond constant folding of comparisons.
 
 import (
-	"go/ast"
+	"strconv"
 	"fmt"
+	"go/ast"
 	"go/constant"
 	"go/token"
 	"go/types"
+	"os"
 	"sort"
 	"strings"
 
@@ -41,12 +43,13 @@ type AV struct {
 	C constant.Value
 	S string
 	T []AV
+	D string // for a non-nil value of an interface type of the repository: its dynamic type, when the path decides it
 }
 
 var top = AV{}
 
-func avBool(b bool) AV    { return AV{K: avConst, C: constant.MakeBool(b)} }
-func avInt(i int64) AV    { return AV{K: avConst, C: constant.MakeInt64(i)} }
+func avBool(b bool) AV     { return AV{K: avConst, C: constant.MakeBool(b)} }
+func avInt(i int64) AV     { return AV{K: avConst, C: constant.MakeInt64(i)} }
 func avSymbol(s string) AV { return AV{K: avSym, S: s} }
 func avTup(xs ...AV) AV    { return AV{K: avTuple, T: xs} }
 
@@ -66,6 +69,9 @@ func (a AV) String() string {
 	case avNil:
 		return "nil"
 	case avNonNil:
+		if a.D != "" {
+			return "nonnil<" + a.D + ">"
+		}
 		return "nonnil"
 	case avSym:
 		return "$" + a.S
@@ -201,7 +207,7 @@ type Sim struct {
 	// TrackLens enables a three-valued length abstraction (0, 1, >=2) of local slices
 	// through make/append/len.
 	TrackLens bool
-	MaxNodes int
+	MaxNodes  int
 
 	// results of the last Run (top-level function only)
 	Nodes        int
@@ -214,6 +220,10 @@ type Sim struct {
 	// fvBind maps the free variables of an inlined closure to the locals of its parent that they
 	// capture, so that the closure reads and writes the parent's cells (deferred clean-up closures).
 	fvBind map[*ssa.FreeVar]*ssa.Alloc
+	// LoadVal may give the value read by a load an abstract value of the rule's choosing (a
+	// symbolic tag for "the configured override", ...).
+	LoadVal  func(load *ssa.UnOp) (AV, bool)
+	dynTypes map[string]types.Type
 }
 
 type fnInfo struct {
@@ -582,6 +592,11 @@ func (s *Sim) execBlock(rc *runCtx, it workItem) []workItem {
 				} else {
 					delete(st.vals, x)
 				}
+				if s.LoadVal != nil {
+					if a, ok := s.LoadVal(x); ok {
+						st.vals[x] = a
+					}
+				}
 			case token.NOT:
 				if bv, ok := s.eval(st, x.X).isBool(); ok {
 					st.vals[x] = avBool(!bv)
@@ -593,6 +608,14 @@ func (s *Sim) execBlock(rc *runCtx, it workItem) []workItem {
 			}
 		case *ssa.BinOp:
 			r := foldCompare(x.Op, s.eval(st, x.X), s.eval(st, x.Y))
+			if r.K == avTop && s.p.rangeIndexOverTable(x) {
+				// the index of a range loop over a package-level table of records
+				if a := s.eval(st, x.X); a.K == avConst && a.C.Kind() == constant.Int {
+					if k, ok := constant.Int64Val(a.C); ok {
+						r = avInt(k + 1)
+					}
+				}
+			}
 			if r.K != avTop {
 				st.vals[x] = r
 			} else {
@@ -612,7 +635,8 @@ func (s *Sim) execBlock(rc *runCtx, it workItem) []workItem {
 		case *ssa.Convert:
 			a := s.eval(st, x.X)
 			if a.K == avConst && a.C.Kind() == constant.Int && isIntegerType(x.Type()) {
-				st.vals[x] = a
+				// (a conversion to a sized integer type wraps)
+				st.vals[x] = AV{K: avConst, C: wrapToType(a.C, x.Type())}
 			} else {
 				delete(st.vals, x)
 			}
@@ -621,7 +645,18 @@ func (s *Sim) execBlock(rc *runCtx, it workItem) []workItem {
 			if a.K == avSym {
 				st.vals[x] = a
 			} else {
-				st.vals[x] = AV{K: avNonNil}
+				nv := AV{K: avNonNil}
+				// an interface declared in the repository: remember which implementation this is
+				if n := namedOf(x.Type()); n != nil && n.Obj().Pkg() != nil && strings.HasPrefix(n.Obj().Pkg().Path(), modPath) {
+					if _, isIface := n.Underlying().(*types.Interface); isIface {
+						nv.D = types.TypeString(x.X.Type(), nil)
+						if s.dynTypes == nil {
+							s.dynTypes = map[string]types.Type{}
+						}
+						s.dynTypes[nv.D] = x.X.Type()
+					}
+				}
+				st.vals[x] = nv
 			}
 		case *ssa.TypeAssert:
 			a := s.eval(st, x.X)
@@ -711,6 +746,23 @@ func (s *Sim) execBlock(rc *runCtx, it workItem) []workItem {
 			}
 		case *ssa.Lookup:
 			delete(st.vals, x)
+			// presence of a known key in a package-level dispatch table
+			// (the entry is remembered by its key: the key operand may be dead by the time of the call)
+			if ld, ok := x.X.(*ssa.UnOp); ok {
+				if g, ok := ld.X.(*ssa.Global); ok {
+					if ka := s.eval(st, x.Index); ka.K == avConst {
+						if t := s.p.funcMapLiteral(g); t != nil {
+							_, hit := t[ka.C.ExactString()]
+							entry := avSymbol(tableEntryPrefix + ka.C.ExactString())
+							if x.CommaOk {
+								st.vals[x] = avTup(entry, avBool(hit))
+							} else {
+								st.vals[x] = entry
+							}
+						}
+					}
+				}
+			}
 			// a lookup with a known key in a package-level table of constants
 			if ka := s.eval(st, x.Index); ka.K == avConst && ka.C.Kind() == constant.String {
 				if ld, ok := x.X.(*ssa.UnOp); ok {
@@ -847,6 +899,11 @@ func (s *Sim) takeEdge(rc *runCtx, it workItem, st *State, b, succ *ssa.BasicBlo
 	// liveness pruning
 	for v := range st.vals {
 		if s.Pinned[v] {
+			continue
+		}
+		// the index of a range loop over a table of records identifies the current element for
+		// as long as the loop variable may be used
+		if bo, ok := v.(*ssa.BinOp); ok && s.p.rangeIndexOverTable(bo) && (bo.Block() == succ || bo.Block().Dominates(succ)) {
 			continue
 		}
 		live := false
@@ -1027,10 +1084,43 @@ func (s *Sim) doCall(rc *runCtx, it workItem, st *State, call ssa.CallInstructio
 	if mc, ok := call.Common().Value.(*ssa.MakeClosure); ok {
 		callee, _ = mc.Fn.(*ssa.Function)
 	}
+	if callee == nil && call.Common().IsInvoke() {
+		// the receiver's dynamic type is decided on this path (an implementation of an interface
+		// of the repository chosen a few instructions earlier): the method of that type
+		if recv := s.eval(st, call.Common().Value); recv.K == avNonNil && recv.D != "" {
+			if t := s.dynTypes[recv.D]; t != nil {
+				if m := s.p.SSA.LookupMethod(t, call.Common().Method.Pkg(), call.Common().Method.Name()); m != nil && m.Blocks != nil {
+					return s.doCallTo(rc, it, st, call, m)
+				}
+			}
+		}
+	}
 	if callee == nil && !call.Common().IsInvoke() {
 		// a function value looked up in a package-level dispatch table (map literal of functions):
 		// the call is explored once per possible entry (exactly one when the key is known)
-		if cands := s.p.tableCallees(call, func(v ssa.Value) AV { return s.eval(st, v) }); len(cands) > 0 {
+		entry := s.eval(st, call.Common().Value)
+		if cands := s.p.tableCallees(call, func(v ssa.Value) AV {
+			if entry.K == avSym && strings.HasPrefix(entry.S, tableEntryPrefix) {
+				return AV{K: avConst, C: constant.MakeString(tableEntryKey + entry.S[len(tableEntryPrefix):])}
+			}
+			return s.eval(st, v)
+		}); len(cands) > 0 {
+			var outs []*State
+			for i, c := range cands {
+				ns := st
+				if i < len(cands)-1 {
+					ns = st.clone()
+				}
+				outs = append(outs, s.doCallTo(rc, it, ns, call, c)...)
+			}
+			return outs
+		}
+		if c := s.tableElemCallee(st, call.Common().Value); c != nil {
+			return s.doCallTo(rc, it, st, call, c)
+		}
+		// a function value that is a parameter or a captured variable: the functions it is bound
+		// to at the (only static) call sites of the enclosing function
+		if cands := s.p.funcValueTargets(call.Common().Value, 3); len(cands) > 0 && len(cands) <= 4 {
 			var outs []*State
 			for i, c := range cands {
 				ns := st
@@ -1045,7 +1135,196 @@ func (s *Sim) doCall(rc *runCtx, it workItem, st *State, call ssa.CallInstructio
 	return s.doCallTo(rc, it, st, call, callee)
 }
 
+// funcValueTargets: the functions a function-typed value may be, when that is decided by the
+// shape of the code: a function or closure, a captured variable bound where the closure is made,
+// a parameter of a function all of whose callers are static call sites.  nil when unknown.
+func (p *Prog) funcValueTargets(v ssa.Value, depth int) []*ssa.Function {
+	if depth < 0 {
+		return nil
+	}
+	switch x := v.(type) {
+	case *ssa.Function:
+		return []*ssa.Function{x}
+	case *ssa.MakeClosure:
+		if f, ok := x.Fn.(*ssa.Function); ok {
+			return []*ssa.Function{f}
+		}
+	case *ssa.ChangeType:
+		return p.funcValueTargets(x.X, depth)
+	case *ssa.UnOp:
+		if x.Op != token.MUL {
+			return nil
+		}
+		// a local captured by reference: every value stored into it
+		var cell *ssa.Alloc
+		switch a := x.X.(type) {
+		case *ssa.Alloc:
+			cell = a
+		case *ssa.FreeVar:
+			fn := a.Parent()
+			if fn.Parent() == nil {
+				return nil
+			}
+			for i, fv := range fn.FreeVars {
+				if fv != a {
+					continue
+				}
+				eachInstr(fn.Parent(), func(in ssa.Instruction) {
+					if mc, ok := in.(*ssa.MakeClosure); ok && mc.Fn == ssa.Value(fn) && i < len(mc.Bindings) {
+						if al, ok := mc.Bindings[i].(*ssa.Alloc); ok {
+							cell = al
+						}
+					}
+				})
+			}
+		}
+		if cell == nil {
+			return nil
+		}
+		var out []*ssa.Function
+		n := 0
+		for _, ref := range *cell.Referrers() {
+			switch r := ref.(type) {
+			case *ssa.Store:
+				if r.Addr != ssa.Value(cell) {
+					return nil
+				}
+				n++
+				t := p.funcValueTargets(r.Val, depth-1)
+				if t == nil {
+					return nil
+				}
+				out = append(out, t...)
+			case *ssa.UnOp, *ssa.MakeClosure, *ssa.DebugRef:
+			default:
+				return nil
+			}
+		}
+		// closures sharing the cell may store to it as well
+		for _, ref := range *cell.Referrers() {
+			if mc, ok := ref.(*ssa.MakeClosure); ok {
+				if cf, ok := mc.Fn.(*ssa.Function); ok {
+					for i, b := range mc.Bindings {
+						if b != ssa.Value(cell) || i >= len(cf.FreeVars) {
+							continue
+						}
+						for _, r := range *cf.FreeVars[i].Referrers() {
+							if st, ok := r.(*ssa.Store); ok && st.Addr == ssa.Value(cf.FreeVars[i]) {
+								return nil
+							}
+						}
+					}
+				}
+			}
+		}
+		if n == 0 {
+			return nil
+		}
+		return dedupeFuncs(out)
+	case *ssa.FreeVar:
+		fn := x.Parent()
+		par := fn.Parent()
+		if par == nil {
+			return nil
+		}
+		idx := -1
+		for i, fv := range fn.FreeVars {
+			if fv == x {
+				idx = i
+			}
+		}
+		var out []*ssa.Function
+		found := false
+		bad := false
+		eachInstr(par, func(in ssa.Instruction) {
+			mc, ok := in.(*ssa.MakeClosure)
+			if !ok || mc.Fn != ssa.Value(fn) || idx < 0 || idx >= len(mc.Bindings) {
+				return
+			}
+			found = true
+			t := p.funcValueTargets(mc.Bindings[idx], depth-1)
+			if t == nil {
+				bad = true
+			}
+			out = append(out, t...)
+		})
+		if !found || bad {
+			return nil
+		}
+		return dedupeFuncs(out)
+	case *ssa.Parameter:
+		fn := x.Parent()
+		if _, ok := x.Type().Underlying().(*types.Signature); !ok {
+			return nil
+		}
+		sites, only := p.staticCallSites(fn)
+		if !only || len(sites) == 0 {
+			return nil
+		}
+		idx := -1
+		for i, par := range fn.Params {
+			if par == x {
+				idx = i
+			}
+		}
+		var out []*ssa.Function
+		for _, site := range sites {
+			args := site.Common().Args
+			if idx < 0 || idx >= len(args) {
+				return nil
+			}
+			t := p.funcValueTargets(args[idx], depth-1)
+			if t == nil {
+				return nil
+			}
+			out = append(out, t...)
+		}
+		return dedupeFuncs(out)
+	}
+	return nil
+}
+
+func dedupeFuncs(fs []*ssa.Function) []*ssa.Function {
+	seen := map[*ssa.Function]bool{}
+	var out []*ssa.Function
+	for _, f := range fs {
+		if !seen[f] {
+			seen[f] = true
+			out = append(out, f)
+		}
+	}
+	return out
+}
+
+// unwrapThunk: a method expression ((*T).m) or bound method value used as a function value is a
+// synthetic wrapper that forwards its arguments, receiver first, to the method: the method itself.
+func unwrapThunk(p *Prog, fn *ssa.Function) *ssa.Function {
+	if fn == nil || fn.Synthetic == "" || fn.Blocks == nil {
+		return fn
+	}
+	if !strings.Contains(fn.Synthetic, "thunk") {
+		return fn
+	}
+	var target *ssa.Function
+	n := 0
+	eachCall(fn, func(c ssa.CallInstruction) {
+		if callee := c.Common().StaticCallee(); callee != nil {
+			target = callee
+			n++
+		}
+	})
+	if n == 1 && target != nil {
+		return target
+	}
+	return fn
+}
+
 func (s *Sim) doCallTo(rc *runCtx, it workItem, st *State, call ssa.CallInstruction, callee *ssa.Function) []*State {
+	viaTable := callee != nil && call.Common().StaticCallee() == nil
+	callee = unwrapThunk(s.p, callee)
+	if simTrace {
+		fmt.Fprintf(os.Stderr, "simtrace: call %s -> %v at %s\n", callDesc(call), callee, s.p.Pos(call.Pos()))
+	}
 	var effs []string
 	if s.Effect != nil {
 		effs = s.Effect(call, callee)
@@ -1115,7 +1394,45 @@ func (s *Sim) doCallTo(rc *runCtx, it workItem, st *State, call ssa.CallInstruct
 			}
 		}
 	}
+	if b, ok := call.Common().Value.(*ssa.Builtin); ok && b.Name() == "len" && len(call.Common().Args) == 1 {
+		if t := s.p.tableOfSlice(call.Common().Args[0]); t != nil {
+			SetCallResult(st, call, avInt(int64(t.n)))
+			return []*State{st}
+		}
+	}
+	// pure string helpers of the standard library on known arguments
+	if callee != nil && !s.p.InRepo(callee) {
+		if outs := s.pureLibCall(st, call, callee); outs != nil {
+			return outs
+		}
+	}
+	// membership of a known value in a package-level table of constants
+	if callee != nil && len(call.Common().Args) == 2 && s.p.anyOfKind(callee) == "eq" {
+		if tbl, _, ok := s.p.constTableArg(call.Common().Args[0]); ok {
+			if a := s.eval(st, call.Common().Args[1]); a.K == avConst && a.C != nil {
+				hit := false
+				for _, e := range tbl {
+					if e.Kind() == a.C.Kind() && constant.Compare(e, token.EQL, a.C) {
+						hit = true
+					}
+				}
+				SetCallResult(st, call, avBool(hit))
+				return []*State{st}
+			}
+		}
+	}
 	if callee != nil && callee.Blocks != nil && s.Inline != nil && s.Inline(callee) {
+		return s.inlineCall(it, st, call, callee)
+	}
+	// the implementation behind an interface of the repository, chosen on this path
+	if viaTable && call.Common().IsInvoke() && callee != nil && callee.Blocks != nil && s.p.InRepo(callee) {
+		if rn := recvNamed(callee); rn != nil && !rn.Obj().Exported() && pkgOfFn(callee) == pkgOfFn(rootFn(call.Parent())) && !s.inlining(callee) {
+			return s.inlineCall(it, st, call, callee)
+		}
+	}
+	// an anonymous adapter registered in a dispatch table (func literal of a package-level map) is
+	// part of the dispatching code
+	if viaTable && callee != nil && callee.Blocks != nil && callee.Parent() != nil && callee.Parent().Name() == "init" && s.p.InRepo(callee) {
 		return s.inlineCall(it, st, call, callee)
 	}
 	// opaque
@@ -1133,6 +1450,11 @@ func (s *Sim) doCallTo(rc *runCtx, it workItem, st *State, call ssa.CallInstruct
 	}
 	return []*State{st}
 }
+
+const tableEntryPrefix = "table-entry:"
+const tableEntryKey = "\x00entry:"
+
+var simTrace = os.Getenv("CQLVERIF_SIMTRACE") != ""
 
 // SetCallResult is used by models to bind the result of call in st.
 func SetCallResult(st *State, call ssa.CallInstruction, a AV) {
@@ -1156,8 +1478,22 @@ func callDesc(call ssa.CallInstruction) string {
 	return "dynamic " + c.Value.Name()
 }
 
+// inlining: a summary of callee is being computed (a recursive call must not be inlined again).
+func (s *Sim) inlining(callee *ssa.Function) bool {
+	pre := callee.String() + "|"
+	for k := range s.inProgress {
+		if strings.HasPrefix(k, pre) {
+			return true
+		}
+	}
+	return false
+}
+
 func (s *Sim) inlineCall(it workItem, st *State, call ssa.CallInstruction, callee *ssa.Function) []*State {
 	args := call.Common().Args
+	if call.Common().IsInvoke() {
+		args = append([]ssa.Value{call.Common().Value}, args...)
+	}
 	var avs []AV
 	for _, a := range args {
 		avs = append(avs, s.eval(st, a))
@@ -1427,6 +1763,90 @@ func (s *Sim) sentinelError(g *ssa.Global) bool {
 	return res
 }
 
+// constSliceLiteral returns the elements of a package-level slice literal of constants (a table
+// of flags, codes, names) that is never assigned or written through after initialisation.
+var constSliceCache = map[*ssa.Global][]constant.Value{}
+
+func (p *Prog) constSliceLiteral(g *ssa.Global) ([]constant.Value, bool) {
+	if t, ok := constSliceCache[g]; ok {
+		return t, t != nil
+	}
+	constSliceCache[g] = nil
+	if g.Pkg == nil || !strings.HasPrefix(g.Pkg.Pkg.Path(), modPath) {
+		return nil, false
+	}
+	rel := strings.TrimPrefix(strings.TrimPrefix(g.Pkg.Pkg.Path(), modPath), "/")
+	if rel == "" {
+		return nil, false
+	}
+	var lit *ast.CompositeLit
+	info := p.TypesInfo(rel)
+	for _, f := range p.Syntax(rel) {
+		for _, d := range f.Decls {
+			gd, ok := d.(*ast.GenDecl)
+			if !ok {
+				continue
+			}
+			for _, sp := range gd.Specs {
+				vs, ok := sp.(*ast.ValueSpec)
+				if !ok {
+					continue
+				}
+				for i, n := range vs.Names {
+					if n.Name == g.Name() && i < len(vs.Values) {
+						lit, _ = vs.Values[i].(*ast.CompositeLit)
+					}
+				}
+			}
+		}
+	}
+	if lit == nil || info == nil {
+		return nil, false
+	}
+	if _, isSlice := info.TypeOf(lit).Underlying().(*types.Slice); !isSlice {
+		return nil, false
+	}
+	out := []constant.Value{}
+	for _, el := range lit.Elts {
+		if _, isKV := el.(*ast.KeyValueExpr); isKV {
+			return nil, false
+		}
+		tv, ok := info.Types[el]
+		if !ok || tv.Value == nil {
+			return nil, false
+		}
+		out = append(out, tv.Value)
+	}
+	if len(out) == 0 {
+		return nil, false
+	}
+	for fn := range p.Funcs {
+		if fn.Pkg != g.Pkg || fn.Blocks == nil || fn.Name() == "init" {
+			continue
+		}
+		written := false
+		eachInstr(fn, func(in ssa.Instruction) {
+			st, ok := in.(*ssa.Store)
+			if !ok {
+				return
+			}
+			if st.Addr == ssa.Value(g) {
+				written = true
+			}
+			if ia, ok := st.Addr.(*ssa.IndexAddr); ok {
+				if ld, ok := ia.X.(*ssa.UnOp); ok && ld.X == ssa.Value(g) {
+					written = true
+				}
+			}
+		})
+		if written {
+			return nil, false
+		}
+	}
+	constSliceCache[g] = out
+	return out, true
+}
+
 var sentinelCache = map[*ssa.Global]bool{}
 
 // constMapLiteral returns the contents of a package-level `map[string]T{...}` literal whose keys
@@ -1506,7 +1926,6 @@ func (p *Prog) constMapLiteral(g *ssa.Global) (map[string]constant.Value, bool) 
 	constMapCache[g] = out
 	return out, true
 }
-
 
 // funcMapLiteral returns the entries of a package-level `map[K]func(...)...{...}` literal (a
 // dispatch table), keyed by the exact string of the constant key; nil when g is not such a table
@@ -1639,8 +2058,15 @@ func (p *Prog) tableCallees(call ssa.CallInstruction, eval func(ssa.Value) AV) [
 		return nil
 	}
 	if eval != nil {
+		if simTrace {
+			fmt.Fprintf(os.Stderr, "simtrace: table key %s = %+v\n", key, eval(key))
+		}
 		if a := eval(key); a.K == avConst && a.C != nil {
-			if f, ok := t[a.C.ExactString()]; ok {
+			k := a.C.ExactString()
+			if a.C.Kind() == constant.String && strings.HasPrefix(constant.StringVal(a.C), tableEntryKey) {
+				k = constant.StringVal(a.C)[len(tableEntryKey):]
+			}
+			if f, ok := t[k]; ok {
 				return []*ssa.Function{f}
 			}
 			return nil
@@ -1656,4 +2082,333 @@ func (p *Prog) tableCallees(call ssa.CallInstruction, eval func(ssa.Value) AV) [
 		out = append(out, t[k])
 	}
 	return out
+}
+
+// ---------------------------------------------------------------------------
+// package-level tables of records (slice literals of structs with function fields), ranged over
+// by the code that applies them: the loop is unrolled (the index is a known constant in every
+// iteration) and a call through a field of the current element goes to that element's function
+
+type recordTable struct {
+	n     int
+	funcs []map[int]*ssa.Function // per element: field index -> function stored in the literal
+}
+
+var recordTableCache = map[*ssa.Global]*recordTable{}
+
+// recordTableOf: g is a package-level slice literal that is never assigned or written through
+// after initialisation; the functions stored in the fields of its elements.
+func (p *Prog) recordTableOf(g *ssa.Global) *recordTable {
+	if t, ok := recordTableCache[g]; ok {
+		return t
+	}
+	recordTableCache[g] = nil
+	if g.Pkg == nil || !strings.HasPrefix(g.Pkg.Pkg.Path(), modPath) {
+		return nil
+	}
+	pt, ok := g.Type().(*types.Pointer)
+	if !ok {
+		return nil
+	}
+	if _, isSlice := pt.Elem().Underlying().(*types.Slice); !isSlice {
+		return nil
+	}
+	init := g.Pkg.Func("init")
+	if init == nil {
+		return nil
+	}
+	var arr *ssa.Alloc
+	stores := 0
+	eachInstr(init, func(in ssa.Instruction) {
+		if st, ok := in.(*ssa.Store); ok && st.Addr == ssa.Value(g) {
+			stores++
+			if sl, ok := st.Val.(*ssa.Slice); ok && sl.Low == nil && sl.High == nil {
+				arr, _ = sl.X.(*ssa.Alloc)
+			}
+		}
+	})
+	if stores != 1 || arr == nil {
+		return nil
+	}
+	at, ok := arr.Type().Underlying().(*types.Pointer).Elem().Underlying().(*types.Array)
+	if !ok {
+		return nil
+	}
+	t := &recordTable{n: int(at.Len())}
+	for i := 0; i < t.n; i++ {
+		t.funcs = append(t.funcs, map[int]*ssa.Function{})
+	}
+	for _, ref := range *arr.Referrers() {
+		ia, ok := ref.(*ssa.IndexAddr)
+		if !ok {
+			continue
+		}
+		k, isConst := constInt(ia.Index)
+		if !isConst || k < 0 || int(k) >= t.n {
+			return nil
+		}
+		for _, r2 := range *ia.Referrers() {
+			fa, ok := r2.(*ssa.FieldAddr)
+			if !ok {
+				continue
+			}
+			for _, r3 := range *fa.Referrers() {
+				if st, ok := r3.(*ssa.Store); ok && st.Addr == ssa.Value(fa) {
+					if fs := p.funcValueTargets(st.Val, 1); len(fs) == 1 {
+						t.funcs[k][fa.Field] = fs[0]
+					}
+				}
+			}
+		}
+	}
+	// never written after initialisation
+	for fn := range p.Funcs {
+		if fn.Pkg != g.Pkg || fn.Blocks == nil || fn.Name() == "init" {
+			continue
+		}
+		written := false
+		eachInstr(fn, func(in ssa.Instruction) {
+			st, ok := in.(*ssa.Store)
+			if !ok {
+				return
+			}
+			if st.Addr == ssa.Value(g) {
+				written = true
+			}
+			addr := st.Addr
+			if fa, ok := addr.(*ssa.FieldAddr); ok {
+				addr = fa.X
+			}
+			if ia, ok := addr.(*ssa.IndexAddr); ok {
+				if ld, ok := ia.X.(*ssa.UnOp); ok && ld.X == ssa.Value(g) {
+					written = true
+				}
+			}
+		})
+		if written {
+			return nil
+		}
+	}
+	recordTableCache[g] = t
+	return t
+}
+
+// tableOfSlice: v is the loaded value of such a table.
+func (p *Prog) tableOfSlice(v ssa.Value) *recordTable {
+	ld, ok := v.(*ssa.UnOp)
+	if !ok || ld.Op != token.MUL {
+		return nil
+	}
+	g, ok := ld.X.(*ssa.Global)
+	if !ok {
+		return nil
+	}
+	return p.recordTableOf(g)
+}
+
+// rangeIndexOverTable: x is the increment `i+1` of the index of a `for range` loop over a record
+// table (the hidden index starts at -1 and is compared with the table's length).
+var rangeIndexCacheT = map[*ssa.BinOp]bool{}
+
+func (p *Prog) rangeIndexOverTable(x *ssa.BinOp) bool {
+	if x.Op != token.ADD {
+		return false
+	}
+	if v, ok := rangeIndexCacheT[x]; ok {
+		return v
+	}
+	v := p.rangeIndexOverTable1(x)
+	rangeIndexCacheT[x] = v
+	return v
+}
+
+func (p *Prog) rangeIndexOverTable1(x *ssa.BinOp) bool {
+	phi, ok := x.X.(*ssa.Phi)
+	if !ok || len(phi.Edges) != 2 {
+		return false
+	}
+	if one, ok := constInt(x.Y); !ok || one != 1 {
+		return false
+	}
+	start, back := false, false
+	for _, e := range phi.Edges {
+		if c, ok := constInt(e); ok && c == -1 {
+			start = true
+		}
+		if e == ssa.Value(x) {
+			back = true
+		}
+	}
+	if !start || !back {
+		return false
+	}
+	for _, ref := range *x.Referrers() {
+		cmp, ok := ref.(*ssa.BinOp)
+		if !ok || cmp.Op != token.LSS || cmp.X != ssa.Value(x) {
+			continue
+		}
+		if c, ok := cmp.Y.(*ssa.Call); ok {
+			if b, ok := c.Call.Value.(*ssa.Builtin); ok && b.Name() == "len" && p.tableOfSlice(c.Call.Args[0]) != nil {
+				return true
+			}
+		}
+	}
+	return false
+}
+
+// tableElemCallee: the called value is a function field of the current element of a record table
+// (check.violated where check is configChecks[i], i known).
+func (s *Sim) tableElemCallee(st *State, v ssa.Value) *ssa.Function {
+	var idxAddr *ssa.IndexAddr
+	field := -1
+	switch x := v.(type) {
+	case *ssa.Field: // field of a copy of the element
+		if ld, ok := x.X.(*ssa.UnOp); ok && ld.Op == token.MUL {
+			idxAddr, _ = ld.X.(*ssa.IndexAddr)
+			field = x.Field
+		}
+	case *ssa.UnOp: // load through the element's address
+		if x.Op == token.MUL {
+			if fa, ok := x.X.(*ssa.FieldAddr); ok {
+				idxAddr, _ = fa.X.(*ssa.IndexAddr)
+				field = fa.Field
+				// the loop variable: a local that holds a copy of the current element
+				if al, ok := fa.X.(*ssa.Alloc); ok {
+					n := 0
+					for _, ref := range *al.Referrers() {
+						if st, ok := ref.(*ssa.Store); ok && st.Addr == ssa.Value(al) {
+							n++
+							if ld, ok := st.Val.(*ssa.UnOp); ok && ld.Op == token.MUL {
+								idxAddr, _ = ld.X.(*ssa.IndexAddr)
+							}
+						}
+					}
+					if n != 1 {
+						idxAddr = nil
+					}
+				}
+			}
+		}
+	}
+	if idxAddr == nil {
+		return nil
+	}
+	t := s.p.tableOfSlice(idxAddr.X)
+	if t == nil {
+		return nil
+	}
+	a := s.eval(st, idxAddr.Index)
+	if a.K != avConst || a.C.Kind() != constant.Int {
+		return nil
+	}
+	k, ok := constant.Int64Val(a.C)
+	if !ok || k < 0 || int(k) >= t.n {
+		return nil
+	}
+	return t.funcs[k][field]
+}
+
+// pureLibCall folds calls of side-effect free standard-library helpers whose arguments are known
+// constants (strings.ToLower, TrimPrefix, HasPrefix ..., strconv.Atoi).
+func (s *Sim) pureLibCall(st *State, call ssa.CallInstruction, callee *ssa.Function) []*State {
+	args := call.Common().Args
+	str := func(i int) (string, bool) {
+		if i >= len(args) {
+			return "", false
+		}
+		a := s.eval(st, args[i])
+		if a.K == avConst && a.C != nil && a.C.Kind() == constant.String {
+			return constant.StringVal(a.C), true
+		}
+		return "", false
+	}
+	setS := func(v string) []*State {
+		SetCallResult(st, call, AV{K: avConst, C: constant.MakeString(v)})
+		return []*State{st}
+	}
+	setB := func(v bool) []*State {
+		SetCallResult(st, call, avBool(v))
+		return []*State{st}
+	}
+	switch callee.String() {
+	case "strings.ToLower":
+		if a, ok := str(0); ok {
+			return setS(strings.ToLower(a))
+		}
+	case "strings.ToUpper":
+		if a, ok := str(0); ok {
+			return setS(strings.ToUpper(a))
+		}
+	case "strings.TrimSpace":
+		if a, ok := str(0); ok {
+			return setS(strings.TrimSpace(a))
+		}
+	case "strings.TrimPrefix":
+		if a, ok := str(0); ok {
+			if b, ok := str(1); ok {
+				return setS(strings.TrimPrefix(a, b))
+			}
+		}
+	case "strings.TrimSuffix":
+		if a, ok := str(0); ok {
+			if b, ok := str(1); ok {
+				return setS(strings.TrimSuffix(a, b))
+			}
+		}
+	case "strings.HasPrefix":
+		if a, ok := str(0); ok {
+			if b, ok := str(1); ok {
+				return setB(strings.HasPrefix(a, b))
+			}
+		}
+	case "strings.HasSuffix":
+		if a, ok := str(0); ok {
+			if b, ok := str(1); ok {
+				return setB(strings.HasSuffix(a, b))
+			}
+		}
+	case "strings.EqualFold":
+		if a, ok := str(0); ok {
+			if b, ok := str(1); ok {
+				return setB(strings.EqualFold(a, b))
+			}
+		}
+	case "strconv.Atoi":
+		if a, ok := str(0); ok {
+			if n, err := strconv.Atoi(a); err == nil {
+				SetCallResult(st, call, avTup(avInt(int64(n)), AV{K: avNil}))
+			} else {
+				SetCallResult(st, call, avTup(avInt(0), AV{K: avNonNil}))
+			}
+			return []*State{st}
+		}
+	}
+	return nil
+}
+
+// wrapToType: the value an integer constant has after conversion to a sized integer type.
+func wrapToType(c constant.Value, t types.Type) constant.Value {
+	b, ok := t.Underlying().(*types.Basic)
+	if !ok {
+		return c
+	}
+	v, exact := constant.Int64Val(c)
+	if !exact {
+		return c
+	}
+	switch b.Kind() {
+	case types.Uint8:
+		return constant.MakeInt64(int64(uint8(v)))
+	case types.Int8:
+		return constant.MakeInt64(int64(int8(v)))
+	case types.Uint16:
+		return constant.MakeInt64(int64(uint16(v)))
+	case types.Int16:
+		return constant.MakeInt64(int64(int16(v)))
+	case types.Uint32:
+		return constant.MakeInt64(int64(uint32(v)))
+	case types.Int32:
+		return constant.MakeInt64(int64(int32(v)))
+	}
+	return c
 }
